@@ -580,8 +580,7 @@ func checkHistory(c *run.Ctx, u *Universe, cs *ConcCase, hist []COp, st *concSta
 		w := *cs
 		w.Hist = hist
 		w.What = msg + " | history: " + fmtHist(hist) + " | universe: " + fmtUniverse(cs.U, progOps(cs))
-		c.Stat("violations "+class, 1)
-		c.Violation(class, w.What, &w)
+		report(c, class, w.What, &w)
 	}
 	for _, o := range hist {
 		if o.Panic != "" {
@@ -633,4 +632,48 @@ func fmtHist(hist []COp) string {
 		s += o.String()
 	}
 	return s
+}
+
+// runFixedConc is the deterministic witness of the one class only the linearizability check can see: the
+// schedule (a delete of an absent box that overlaps the submission of one of its sub txs) is scripted, the
+// calls are real. DelTxs([box]) orphans the freshly added sub tx 2; it is still handed out; deleting the
+// only other entry empties the index, the pool resets its storage and tx 2 is gone although it was neither
+// deleted after its submission (if the delete is ordered first) nor may be handed out (if ordered second).
+func runFixedConc(c *run.Ctx, st *concStats) {
+	far := uint64(concT0 + 100000)
+	cs := &ConcCase{Mon: "conc", U: []TxSpec{{ID: 0, Exp: far}, {ID: 1, Exp: far}, {ID: 2, Exp: far}, {ID: 3, Exp: far, Subs: []int{1, 2}}}}
+	u, err := BuildUniverse(cs.U)
+	if err != nil {
+		c.Inconclusive("fixed concurrent case: " + err.Error())
+		return
+	}
+	pool := txpool.NewTxPool()
+	var clock int64
+	stamp := func() int64 { clock++; return clock }
+	get := func(p int) COp {
+		o := COp{Proc: p, Op: "get", Time: concT0, Size: concSize, Call: stamp()}
+		o.Sel = u.selIDs(pool.GetTxs(o.Time, o.Size))
+		o.Ret = stamp()
+		return o
+	}
+	a0 := COp{Proc: 0, Op: "add", IDs: []int{0}, Call: stamp()}
+	a0.OK = pool.AddTx(u.Txs[0]) == nil
+	a0.Ret = stamp()
+	a2 := COp{Proc: 1, Op: "add", IDs: []int{2}, Call: stamp()}
+	a2.OK = pool.AddTx(u.Txs[2]) == nil
+	// client 1 has its reply but is descheduled before it takes the return stamp
+	d3 := COp{Proc: 2, Op: "del", IDs: []int{3}, Call: stamp()}
+	pool.DelTxs(u.txsOf(d3.IDs))
+	d3.Ret = stamp()
+	a2.Ret = stamp()
+	g1 := get(0)
+	d0 := COp{Proc: 0, Op: "del", IDs: []int{0}, Call: stamp()}
+	pool.DelTxs(u.txsOf(d0.IDs))
+	d0.Ret = stamp()
+	g2 := get(0)
+	hist := []COp{a0, a2, d3, g1, d0, g2}
+	cs.Progs = [][]SeqOp{{{Op: "add", IDs: []int{0}}, {Op: "get", Time: concT0, Size: concSize}, {Op: "del", IDs: []int{0}}, {Op: "get", Time: concT0, Size: concSize}},
+		{{Op: "add", IDs: []int{2}}}, {{Op: "del", IDs: []int{3}}}}
+	checkHistory(c, u, cs, hist, st)
+	c.Case("conc fixed-delete-overlapping-subtx-add", true, nil)
 }
